@@ -264,15 +264,16 @@ def grammar_check(ctx, cats, n_quick, n_thorough, opts, evals=EVALS, invs=None, 
         models.update(run_lexer_models(ctx, evals, lexer["alphabets"], lexer["k_quick"] if ctx.quick() else lexer["k_thorough"], lexer.get("invs")))
     if compose:
         c = compose["quick"] if ctx.quick() else compose["thorough"]
-        models.update(run_compose_models(ctx, evals, c[0], c[1]))
+        cev = [e for e in evals if e in compose.get("evals", evals)]
+        models.update(run_compose_models(ctx, cev, c[0], c[1]))
         jn = compose.get("join")
         if jn:
             jj = jn["quick"] if ctx.quick() else jn["thorough"]          # (longest right piece, longest left piece)
-            models.update(run_compose_models(ctx, evals, jj[0], jj[1], tag="join", mode="join", invs=COMPOSE_INV + ["ComposeTree"]))
+            models.update(run_compose_models(ctx, cev, jj[0], jj[1], tag="join", mode="join", invs=COMPOSE_INV + ["ComposeTree"]))
         ch = compose.get("chains")
         if ch:
             cc = ch["quick"] if ctx.quick() else ch["thorough"]      # (walks, depth, max tokens)
-            models.update(run_compose_models(ctx, evals, 3, 3, depth=cc[1], maxtoks=cc[2], simulate=cc[0], tag="chain"))
+            models.update(run_compose_models(ctx, cev, 3, 3, depth=cc[1], maxtoks=cc[2], simulate=cc[0], tag="chain"))
     machines = run_machine_models(ctx, machine["evals"], machine["quick"] if ctx.quick() else machine["thorough"]) if machine else {}
     spec_viol = [(e, r["violated"]) for e, r in list(models.items()) + list(machines.items()) if r["violated"]]
     semr = None
@@ -543,7 +544,7 @@ def deep_shape_jobs(ctx):
 def c01(ctx):
     q = ctx.quick()
     return grammar_check(ctx, {"panic", "abort", "hang"}, {"*": 4}, {"*": 6, "f64": 6}, extra_jobs=nested_agg_jobs(ctx), unopt_jobs=unopt_shape_jobs, opts=
-                         [{"assignments": 2, "full_placeholders": True, "event_every": 50, "event_cap": 2000, "reject_suffixes": 2},
+                         [{"assignments": 2, "full_placeholders": True, "event_every": 50, "event_cap": 2000, "reject_suffixes": 2, "mutations": 3 if q else 12},
                           {"assignments": 1, "boundary_pool": True, "full_placeholders": True, "max_assign": 200 if q else 4000, "event_every": 500, "event_cap": 1000, "compose_assign": 6 if q else 40}],
                          invs=[], lexer={"alphabets": ["lit", "kw1", "kw2", "kw3", "ops", "sup"], "k_quick": 3, "k_thorough": 5},
                          compose={"quick": (3, 3), "thorough": (4, 4), "chains": {"quick": (4, 14, 100), "thorough": (150, 20, 110)}})
@@ -563,7 +564,8 @@ def c04(ctx):
 
 def c12(ctx):
     return grammar_check(ctx, {"meta_jux", "ok_on_reject"}, {"*": 5}, {"*": 6, "f64": 7},
-                         {"assignments": 2, "extras": ["jux"], "event_every": 200, "event_cap": 1500, "nontrivial_min_ops": 1, "parser_events": True})
+                         {"assignments": 2, "extras": ["jux"], "event_every": 200, "event_cap": 1500, "nontrivial_min_ops": 1, "parser_events": True},
+                         compose={"quick": (3, 3), "thorough": (4, 4), "evals": ["f64", "i64", "dec"]})
 
 def c13(ctx):
     return grammar_check(ctx, {"meta_ws", "meta_alias", "meta_notation", "meta_sup", "meta_plus", "meta_wrap"}, {"*": 4}, {"*": 5, "f64": 6},
@@ -589,13 +591,13 @@ def c06(ctx):
     return grammar_check(ctx, {"value", "ok_on_semantic_err", "err_on_defined", "profile_diff", "panic", "abort"}, {"*": 5}, {"*": 6},
                          {"assignments": 1, "boundary_pool": True, "full_placeholders": True, "max_assign": 700 if ctx.quick() else 6000,
                           "event_every": 500, "event_cap": 2000, "nontrivial_min_ops": 1, "scope": SCOPE_C06}, evals=["i64"], invs=[],
-                         sem={"w_quick": 6, "w_thorough": 8, "invs": ("C06Exact",)}, compose={"quick": (4, 3), "thorough": (4, 4)})
+                         sem={"w_quick": 6, "w_thorough": 8, "invs": ("C06Exact",)}, compose={"quick": (4, 3), "thorough": (4, 4), "chains": {"quick": (6, 8, 40), "thorough": (200, 10, 60)}})
 
 def c09(ctx):
     return grammar_check(ctx, {"value", "ok_on_semantic_err", "err_on_defined", "profile_diff", "panic", "abort"}, {"*": 5}, {"*": 6},
                          {"assignments": 1, "boundary_pool": True, "full_placeholders": True, "max_assign": 700 if ctx.quick() else 6000,
                           "event_every": 500, "event_cap": 2000, "nontrivial_min_ops": 1, "scope": SCOPE_C09}, evals=["num"], invs=[],
-                         sem={"w_quick": 6, "w_thorough": 8, "invs": ("C09IntegerWhenFits", "C09Rounding")}, compose={"quick": (3, 3), "thorough": (4, 4)})
+                         sem={"w_quick": 6, "w_thorough": 8, "invs": ("C09IntegerWhenFits", "C09Rounding")}, compose={"quick": (3, 3), "thorough": (4, 4), "chains": {"quick": (6, 8, 40), "thorough": (200, 10, 60)}})
 
 def base_job(ctx, mode, tag, profile, **kw):
     j = {"mode": mode, "vocab": os.path.join(WORK, "vocab.json"), "shard": 0, "nshards": 1, "start": 0,
@@ -880,7 +882,7 @@ def c07(ctx):
     q = ctx.quick()
     return grammar_check(ctx, {"value", "ok_on_semantic_err", "err_on_defined", "profile_diff", "panic", "abort"}, {"*": 5}, {"*": 6},
                          {"assignments": 1, "boundary_pool": True, "full_placeholders": True, "max_assign": 700 if q else 8000,
-                          "event_every": 500, "event_cap": 2000, "nontrivial_min_ops": 1, "scope": SCOPE_C07}, evals=["dec"], invs=[], compose={"quick": (4, 3), "thorough": (4, 4)},
+                          "event_every": 500, "event_cap": 2000, "nontrivial_min_ops": 1, "scope": SCOPE_C07}, evals=["dec"], invs=[], compose={"quick": (4, 3), "thorough": (4, 4), "chains": {"quick": (6, 8, 40), "thorough": (200, 10, 60)}},
                          sem={"dec": {"quick": (2, 1, 3, 3), "thorough": (2, 2, 4, 1)}, "invs": ("C07Exact",)})
 
 def c08(ctx):
